@@ -384,7 +384,7 @@ func runStaged(scratch, name, full string, weakened []string, getValues []string
 		fast = append(fast, solverJob{spec: noextSolver, file: f, label: label, unsatOnly: true})
 	}
 	if !all {
-		t1 := 3
+		t1 := 5
 		if timeoutS < t1 {
 			t1 = timeoutS
 		}
